@@ -174,8 +174,12 @@ Record bc_result : Type := { r_tgt : tgt; r_memo : memo; r_key : key; r_cb : lis
 
 Definition mk_result t m k cb cn : bc_result := {| r_tgt := t; r_memo := m; r_key := k; r_cb := cb; r_cn := cn |}.
 
-(* use_memo = false gives the plain unfolding (no `translation` reuse), used in the proofs *)
-Fixpoint bc (fuel : nat) (use_memo : bool) (src : graph) (ai : atom_info) (is_ev : bool)
+(* use_memo = false gives the plain unfolding (no `translation` reuse), used in the proofs.
+   tc ("true child"): cycles.py at the pinned commit only short-cuts a deterministic child
+   (key 0 = TRUE) when `not is_evidence`; in the evidence pass it falls through to
+   get_node(0), whose assertion fails (tc = false models that: result None).  With
+   fixes/C09-true-child-in-evidence-pass.patch the short-cut applies in both passes (tc = true). *)
+Fixpoint bc (fuel : nat) (tc : bool) (use_memo : bool) (src : graph) (ai : atom_info) (is_ev : bool)
          (t : tgt) (m : memo) (nodeid : Z) (anc : list nat) : option bc_result :=
   match fuel with
   | O => None
@@ -183,7 +187,7 @@ Fixpoint bc (fuel : nat) (use_memo : bool) (src : graph) (ai : atom_info) (is_ev
     let neg := (nodeid <? 0)%Z in
     let n := Z.abs_nat nodeid in
     let out (k : key) := if neg then knegate k else k in
-    if (n =? 0) && negb is_ev then Some (mk_result t m (Some 0%Z) [] [])      (* get_evidence_value(0) = TRUE *)
+    if (n =? 0) && (tc || negb is_ev) then Some (mk_result t m (Some 0%Z) [] []) (* get_evidence_value(0) = TRUE *)
     else if mem n anc then Some (mk_result t m None [n] [])                     (* cyclic node: node is False *)
     else
       let reuse := if use_memo then
@@ -206,7 +210,7 @@ Fixpoint bc (fuel : nat) (use_memo : bool) (src : graph) (ai : atom_info) (is_ev
               match acc with
               | None => None
               | Some (t0, m0, ks, cb, cn) =>
-                match bc f use_memo src ai is_ev t0 m0 child (anc ++ [n]) with
+                match bc f tc use_memo src ai is_ev t0 m0 child (anc ++ [n]) with
                 | None => None
                 | Some r => Some (r_tgt r, r_memo r, ks ++ [r_key r], union cb (r_cb r), union cn (r_cn r))
                 end
@@ -226,7 +230,7 @@ Fixpoint bc (fuel : nat) (use_memo : bool) (src : graph) (ai : atom_info) (is_ev
   end.
 
 (* break_cycles: first the query-like labels with one memo, then the evidence with a fresh one *)
-Definition bc_top (use_memo : bool) (src : graph) (ai : atom_info) (is_ev : bool)
+Definition bc_top (tc : bool) (use_memo : bool) (src : graph) (ai : atom_info) (is_ev : bool)
            (acc : option (tgt * memo * list key)) (n : key) : option (tgt * memo * list key) :=
   match acc with
   | None => None
@@ -235,7 +239,7 @@ Definition bc_top (use_memo : bool) (src : graph) (ai : atom_info) (is_ev : bool
     | Some c =>
       if is_prob n then
         let c' := if is_ev then Z.abs c else c in
-        match bc (S (S (length src))) use_memo src ai is_ev t m c' [] with
+        match bc (S (S (length src))) tc use_memo src ai is_ev t m c' [] with
         | None => None
         | Some r => let k := if is_ev && (c <? 0)%Z then knegate (r_key r) else r_key r in
                     Some (r_tgt r, r_memo r, ks ++ [k])
@@ -245,12 +249,12 @@ Definition bc_top (use_memo : bool) (src : graph) (ai : atom_info) (is_ev : bool
     end
   end.
 
-Definition break_cycles_m (use_memo : bool) (src : graph) (ai : atom_info) (labeled evidence : list key)
+Definition break_cycles_m (tc : bool) (use_memo : bool) (src : graph) (ai : atom_info) (labeled evidence : list key)
   : option (graph * list key * list key) :=
-  match fold_left (bc_top use_memo src ai false) labeled (Some (tgt_empty, [], [])) with
+  match fold_left (bc_top tc use_memo src ai false) labeled (Some (tgt_empty, [], [])) with
   | None => None
   | Some (t1, _, ks1) =>
-    match fold_left (bc_top use_memo src ai true) evidence (Some (t1, [], [])) with
+    match fold_left (bc_top tc use_memo src ai true) evidence (Some (t1, [], [])) with
     | None => None
     | Some (t2, _, ks2) => Some (t_nodes t2, ks1, ks2)
     end
